@@ -118,7 +118,7 @@ void run_case(ByteSource& s, CaseInfo& ci) {
   try { S.Evolve(dur); }
   catch (const std::exception& e) { throw Fail(fmt("C04|Evolve|throws|%s-%s", STEPPER_NAMES[stepper], adaptive ? "adaptive" : "fixed"), fmt("exception '%s' :: %s", e.what(), desc.c_str())); }
   double t1d = p.t_ini + dur;
-  CHECK(fabs(S.Get_t() - t1d) <= (8 + (adaptive ? 0 : 2.0 * nsteps)) * 2.3e-16 * (fabs(p.t_ini) + dur) && S.Get_t_initial() == p.t_ini, "C04|clock", "Get_t=%.17g expected %.17g :: %s", S.Get_t(), t1d, desc.c_str());
+  CHECK(fabs(S.Get_t() - t1d) <= 4 * 2.3e-16 * (fabs(p.t_ini) + dur) && S.Get_t_initial() == p.t_ini, "C04|clock", "Get_t=%.17g expected %.17g :: %s", S.Get_t(), t1d, desc.c_str());
   ld t1 = (ld)S.Get_t();
   unsigned eff = any_off ? 0 : mask;
   // accuracy demanded per stepping mode (x (1+|state|)); calibrated on 96k thorough cases with >= 15x headroom over the worst
